@@ -111,11 +111,12 @@ example : ∃ f, reaches (fun _ _ => 0) ⟨[.int .int8, .str], false, [.bool]⟩
   ⟨f, h⟩
 
 /-- The same for the shape of plugin functions, `func(fixed…, rest ...interface{})`: with fitting
-    fixed arguments and **at most one** further argument (any non-NULL value, passed on unchanged) the
+    fixed arguments and **at most one** further argument (any value but NULL — the only value without a
+    dynamic type —, passed on unchanged) the
     function is run. (A second variadic argument is "too many": `NumIn` counts the slice once.) -/
 theorem variadic_iface_call_runs_function (oob : IntKind → Num → Int) (fixed rs : List Ty)
     (fargs extra : List Val) (hfit : AllFit fixed fargs) (hx : extra.length ≤ 1)
-    (hnn : Val.nil ∉ extra) (body : List Val → BodyOut) :
+    (hnn : ∀ v ∈ extra, v.ty ≠ none) (body : List Val → BodyOut) :
     ∃ f, TypesMatch f fixed ∧
       run shape oob (.fn ⟨fixed ++ [.list], true, rs⟩ body) (fargs ++ extra) =
         finish shape ⟨fixed ++ [.list], true, rs⟩ (body (f ++ extra)) := by
@@ -130,7 +131,10 @@ theorem variadic_iface_call_runs_function (oob : IntKind → Num → Int) (fixed
   have hall : (extra.all fun v => valAssignable v Ty.iface) = true := by
     rw [List.all_eq_true]
     intro v hv
-    cases v <;> first | exact absurd hv hnn | simp [valAssignable, Val.ty, assignable]
+    have := hnn v hv
+    cases hty : v.ty with
+    | none => exact absurd hty this
+    | some t => simp [valAssignable, hty, assignable]
   have hc : callCheck ⟨fixed ++ [.list], true, rs⟩ (f ++ extra) = true := by
     simp [callCheck, ← hlen, allAssignable_of_types hty, hall]
   have hr : reaches oob ⟨fixed ++ [.list], true, rs⟩ (fargs ++ extra) = some (f ++ extra) := by
@@ -258,14 +262,29 @@ theorem numeric_result_exact :
     (∀ x, convertResultNumber .f64 (.f64 x) = .f64 x) := by
   refine ⟨?_, fun _ => rfl, fun _ => rfl⟩
   intro k n h
-  simp [convertResultNumber, Num.ofInt, h]
+  simp [convertResultNumber, numericOf, Num.ofInt, h]
 
 /-- Every result of a numeric static type is delivered as an ECAL number (a float64), whatever
     its size: no Go integer or float32 leaks into the ECAL program through a numerically typed result.
     (`foreign` stands for values of non-primitive types only.) -/
 theorem numeric_result_is_number (t : Ty) (v : Val) (ht : t.isNumeric = true) (hv : v.ty = some t)
     (hw : ∀ t' c, v ≠ .foreign t' c) : ∃ x, convertResultNumber t v = .f64 x := by
-  cases t <;> simp [Ty.isNumeric] at ht <;> cases v <;> simp_all [Val.ty, convertResultNumber]
+  cases t <;> simp [Ty.isNumeric] at ht <;> cases v <;> simp_all [Val.ty, convertResultNumber, numericOf]
+
+/-- Defined types (`type Duration int64`): a result of a defined numeric type is converted by its
+    Kind like the plain type — exactly up to 2^53. -/
+theorem named_numeric_result_exact (id : Nat) (k : IntKind) (n : Int) (h : n.natAbs ≤ 2 ^ 53) :
+    convertResultNumber (.named id (.int k)) (.named id (.int k n)) = .f64 (.fin n 0) := by
+  simp [convertResultNumber, numericOf, Num.ofInt, h]
+
+/-- … but a *parameter* of a defined numeric type never accepts an ECAL number: `convertNumber`
+    produces the plain `intN`/`floatN` and the identity comparison of the types then fails. (A
+    limitation of the code, inside the property: the answer is an error, not a crash.) -/
+theorem named_numeric_param_rejects_numbers (oob : IntKind → Num → Int) (id : Nat) (u : Ty) (x : Num) :
+    checkArg oob (.named id u) (.f64 x) = .error := by
+  obtain ⟨t', ht', hn⟩ := convertNumber_ty (oob := oob) x u
+  have hne : t' ≠ Ty.named id u := by intro h; subst h; simp [Ty.isNumeric] at hn
+  simp [checkArg, convertNumber, ht', hne, Ty.isInterface, Ty.list]
 
 /-- Both directions end to end: for every integer kind `k` and every integer `n` in its range with
     |n| ≤ 2^53, a function `func(x k) k { return x }` called with the ECAL number `n` receives
@@ -282,7 +301,7 @@ theorem numeric_roundtrip_echo (oob : IntKind → Num → Int) (k : IntKind) (n 
       valAssignable, assignable]
   refine ⟨h1, ?_⟩
   rw [reaching_runs_body h1, hlog]
-  simp [finish, convertResults, convertResultNumber, Num.ofInt, hn, packRet]
+  simp [finish, convertResults, convertResultNumber, numericOf, Num.ofInt, hn, packRet]
 
 example : run shape (fun _ _ => 0) (.fn ⟨[.int .uint8], false, [.int .uint8]⟩ .ret) [.f64 (.fin 255 0)]
     = .done (.one (.f64 (.fin 255 0))) none :=
